@@ -47,6 +47,8 @@ func runC01(p *Prog, r *Report) {
 	}
 	accessibilityRule(p, r, "C01.R4")
 	accessibleRule(p, r, "C01.R4b")
+	methodSetRule(p, r, "C01.R5")
+	qualMethodRule(p, r, "C01.R6")
 }
 
 // reservedNames reads the initial lookup set from the map literal in namer.New.
